@@ -2,7 +2,20 @@ import enum
 import io
 import re
 from collections import defaultdict
-from tokenize import COMMENT, NAME, OP, STRING, TokenError, TokenInfo, tokenize, untokenize
+from tokenize import (
+    COMMENT,
+    DEDENT,
+    ENDMARKER,
+    INDENT,
+    NAME,
+    NEWLINE,
+    OP,
+    STRING,
+    TokenError,
+    TokenInfo,
+    tokenize,
+    untokenize,
+)
 
 from packaging.specifiers import InvalidSpecifier, SpecifierSet
 
@@ -160,6 +173,14 @@ class ForParser:
 
         if self._state != ParserState.RUNNING:
             return False
+
+        # an annotation cannot extend past the end of the logical line
+        # (`for x: uint256` without `in`); swallowing the NEWLINE (and the
+        # INDENT/DEDENT tokens after it) would unbalance the token stream
+        if token.type in (NEWLINE, INDENT, DEDENT, ENDMARKER):
+            raise SyntaxException(
+                "invalid for loop syntax: missing `in`", self._code, token.start[0], token.start[1]
+            )
 
         # slurp the token
         self._current_annotation.append(token)
